@@ -139,8 +139,17 @@ def rule_mergelookup(ctx):
     R = "C13.MERGELOOKUP"
     f = ctx.program.func("util.merge_labeled_intervals", R)
     s = ctx.S.get(f.qual)
-    need(len(s.returns) == 1 and s.returns[0].term.op == "tuple" and len(s.returns[0].term.a) == 3, R, "merge_labeled_intervals: (intervals, x_labels, y_labels) return not found")
-    iv, xl, yl = s.returns[0].term.a
+    triples = [r for r in s.returns if r.term.op == "tuple" and len(r.term.a) == 3]
+    need(len(triples) == len(s.returns) and triples, R, "merge_labeled_intervals: (intervals, x_labels, y_labels) return not found")
+    main = [r for r in triples if any(x.op == "call" and call_name(x) == "np.unique" for x in tm.walk(r.term.a[0]))]
+    short = [r for r in triples if r not in main]
+    need(len(main) == 1, R, "merge_labeled_intervals: the return that merges the boundaries was not found")
+    for k, r in enumerate(short):
+        # a shortcut that hands an input back unrefined is exact only when the two interval arrays are identical
+        conds = list(symeval.pc_conds(r.pc))
+        exact_eq = any(pol and c.op == "call" and call_name(c) == "np.array_equal" and {"x_intervals", "y_intervals"} <= tm.params_of(c) for c, pol in conds) or any(pol and any(x.op == "call" and call_name(x) == "np.array_equal" and {"x_intervals", "y_intervals"} <= tm.params_of(x) for x in tm.walk(c)) and c.op == "bool" and c.a[0] == "and" for c, pol in conds)
+        yield ob(R, f, "util.merge_labeled_intervals:shortcut#%d" % (k + 1), exact_eq, "the unmerged shortcut is taken only for identical interval arrays" if exact_eq else "a return path hands back %s without merging the boundaries (under %s): intervals that are only approximately aligned keep their slivers out of the refinement" % (tm.show(r.term.a[0], 2), "; ".join(tm.show(c, 3) for c, _ in conds)), node=r.node)
+    iv, xl, yl = main[0].term.a
     # boundaries: unique of both inputs; intervals: consecutive pairs
     uniq = [x for x in tm.walk(iv) if x.op == "call" and call_name(x) == "np.unique"]
     good_u = bool(uniq) and all({"x_intervals", "y_intervals"} <= tm.params_of(u) for u in uniq)
